@@ -723,7 +723,7 @@ class Unit:
 
     def __init__(self, file, name, cls=None, cname=None, sig=None, nth=0, bind=None, method=None,
                  selftype=None, pre=(), post=(), ret=None, params=None, extra_members=(), refs_keep=(),
-                 maythrow=False, scalar_types=(), static=False, drop_const_self=False, block=None, objs=None, retval=None, witness=(), strs=(), base_init_ok=(), enums=(), stub_siblings=None):
+                 maythrow=False, scalar_types=(), static=False, drop_const_self=False, block=None, objs=None, retval=None, witness=(), strs=(), base_init_ok=(), enums=(), stub_siblings=None, rename=None):
         self.file = file
         self.name = name
         self.cls = cls
@@ -747,6 +747,7 @@ class Unit:
         self.strs = list(strs)
         self.base_init_ok = list(base_init_ok)
         self.enums = list(enums)
+        self.rename = rename or {}   # C++ identifiers that clash with names the rules introduce (e.g. a parameter called self)
         self.stub_siblings = stub_siblings or {}   # unqualified calls to methods of the same class that are contract stubs
         self.witness = list(witness)   # [(expr of type char*, length expr, K)]: first K bytes copied to a ghost array so traces show them
 
@@ -839,6 +840,10 @@ def extract(repo, u, R=None, src_cache=None, siblings=None):
             src_cache[path] = src
     f = find_function(src, u.name, u.cls, u.sig, u.nth)
     where = '%s:%d' % (u.file, f['line'])
+    for old, new in u.rename.items():
+        f['body'] = re.sub(r'\b' + re.escape(old) + r'\b', new, f['body'])
+        f['params'] = re.sub(r'\b' + re.escape(old) + r'\b', new, f['params'])
+        R.hit('rename_identifier')
     body = f['body']
     brace_line = f['end_line'] - body.count('\n')
     raw_sha = hashlib.sha256((f['header'] + f['params'] + body).encode()).hexdigest()[:16]
